@@ -55,7 +55,9 @@ def st_case(draw):
     more = []
     for _ in range(draw(st.sampled_from([0, 0, 1, 2]))):
         more.append({"dt": draw(st.sampled_from([0, 1, 5])),
-                     "resubmit": draw(st.lists(st.integers(0, n - 1), max_size=3, unique=True))})
+                     "resubmit": draw(st.lists(st.integers(0, n - 1), max_size=3, unique=True)),
+                     # this pass is preceded by one that fails (the database is locked / the engine reports an error)
+                     "failed_pass_first": draw(st.sampled_from([False, False, True]))})
     # what else is going on while the first pass runs: nothing; a stored query whose rows are only half consumed (SQL: the
     # pass gets another pooled connection); accepted events still waiting in the LMDB writer queue (few / over a thousand)
     overlap = draw(st.sampled_from([None, None, None, "stream", "stream", "backlog:3", "backlog:3", "backlog:1200"]))
@@ -157,6 +159,9 @@ class GC(Sub):
                 before = {i: e for i, e in (await rig.dump()).items() if i not in filler}
                 T = T + rnd["dt"]
                 clock.now = float(T) + 0.5
+                if rnd.get("failed_pass_first"):
+                    labels.append("pass-after-a-failed-pass")
+                    await self.failing_pass(rig, gc)
                 await gc.run_once()
                 await rig.settle()
                 after = {i: e for i, e in (await rig.dump()).items() if i not in filler}
@@ -193,6 +198,51 @@ class GC(Sub):
         for vd in set(verdicts.values()):
             labels.append("has-" + vd)
         return Result(viol, nt, labels)
+
+
+async def _failing_pass(self, rig, gc):
+    """one pass of the same collector during which the engine fails; what it raises is swallowed, as Periodic does"""
+    if rig.backend == "sql":
+        import sqlite3
+
+        import sqlalchemy as sa
+
+        armed = [True]
+
+        def boom(cursor, statement, parameters, context):
+            if armed[0] and statement.lstrip().upper().startswith("DELETE"):
+                armed[0] = False
+                raise sqlite3.OperationalError("database is locked")
+
+        sa.event.listen(rig.storage.db.sync_engine, "do_execute", boom)
+        try:
+            try:
+                await gc.run_once()
+            except Exception:
+                pass
+        finally:
+            sa.event.remove(rig.storage.db.sync_engine, "do_execute", boom)
+    else:
+        import lmdb
+
+        real = gc.collect
+
+        async def collect(db):
+            gc.collect = real
+            raise lmdb.Error("MDB_READERS_FULL: environment maxreaders limit reached")
+
+        gc.collect = collect
+        try:
+            await gc.run_once()
+        except Exception:
+            pass
+        finally:
+            gc.collect = real
+    rig.pump()
+    await rig.settle()
+
+
+GC.failing_pass = _failing_pass
 
 
 def _judge(self, backend, before, after, T, viol):
